@@ -180,10 +180,18 @@ impl PeerHandler {
 
     pub async fn run_incoming(&mut self) {
         #[cfg(feature = "verif")]
-        if let Some(mem) = crate::verif::dial(&self.connection.addr) {
-            self.connection.with_mem(mem);
-            self.run().await;
-            return;
+        match crate::verif::dial(&self.connection.addr) {
+            Some(crate::verif::Dial::Mem(mem)) => {
+                self.connection.with_mem(mem);
+                self.run().await;
+                return;
+            }
+            Some(crate::verif::Dial::Refused) => {
+                let reason = "Connection fail".to_string();
+                Self::kill_req(&self.connection.addr, &reason, &mut self.peer_ch).await;
+                return;
+            }
+            None => (),
         }
         match TcpStream::connect(&self.connection.addr).await {
             Ok(socket) => {
